@@ -803,11 +803,22 @@ impl Fixture {
 impl Fixture {
 	/// `GET <path>` through a service whose HTTP middleware is `ProxyGetRequestLayer` mapping `/health` to `guard_probe`
 	pub async fn http_get_via_proxy(&self, path: &str) -> HttpResp {
+		self.http_via_proxy(HttpReq { method: "GET".into(), headers: vec![], frames: vec![], content_length: false, uri: path.into(), trailers: false }).await
+	}
+
+	/// a JSON POST to `path` through the same service: the proxy layer is for GET requests only, a POST is an ordinary
+	/// JSON-RPC request whatever its path
+	pub async fn http_post_via_proxy(&self, path: &str, body: &[u8]) -> HttpResp {
+		let mut req = HttpReq::post_json(body);
+		req.uri = path.into();
+		self.http_via_proxy(req).await
+	}
+
+	async fn http_via_proxy(&self, req: HttpReq) -> HttpResp {
 		use jsonrpsee_server::middleware::http::ProxyGetRequestLayer;
 		use tower::Service;
 		let layer = ProxyGetRequestLayer::new([("/health", "guard_probe")]).expect("valid path");
 		let mut svc = self.builder.clone().set_http_middleware(tower::ServiceBuilder::new().layer(layer)).build(self.methods.clone(), self.stop.clone());
-		let req = HttpReq { method: "GET".into(), headers: vec![], frames: vec![], content_length: false, uri: path.into(), trailers: false };
 		let request = match build_request(&req) {
 			Ok(r) => r,
 			Err(e) => return HttpResp { status: 0, body: e.into_bytes(), content_type: None },
